@@ -564,7 +564,14 @@ func (w *Lit) End() Pos {
 }
 func (w *Quote) End() Pos {
 	end := w.Value.End()
-	if end.IsZero() || w.Tok == `\` {
+	if end.IsZero() {
+		if w.TokPos.IsZero() {
+			return end
+		}
+		// empty value
+		end = w.TokPos.shift(len(w.Tok))
+	}
+	if w.Tok == `\` {
 		return end
 	}
 	return end.shift(1)
